@@ -12,6 +12,7 @@ import (
 	"encoding/hex"
 	"fmt"
 	"net"
+	"strings"
 	"time"
 
 	"github.com/alephium/wormhole-fork/node/cmd/spy"
@@ -20,6 +21,7 @@ import (
 	spyv1 "github.com/alephium/wormhole-fork/node/pkg/proto/spy/v1"
 	"github.com/alephium/wormhole-fork/node/pkg/vaa"
 	"github.com/alephium/wormhole-fork/node/verifh/ev"
+	"github.com/alephium/wormhole-fork/node/verifh/quiesce"
 	"go.uber.org/zap"
 	"google.golang.org/grpc"
 	"google.golang.org/grpc/credentials/insecure"
@@ -141,6 +143,127 @@ func transport() {
 		r.Add("transport_deliveries_checked", len(want))
 		if !ok {
 			r.Violation("transport: a subscriber behind the node's real gRPC server did not receive exactly the published VAAs matching its filters", fmt.Sprintf("%s: got %d of %d, stream error: %v", sb.name, len(sb.got), len(want), sb.err), map[string]interface{}{"subscriber": sb.name, "sizes": "64 B .. 900 KiB"})
+		}
+	}
+}
+
+// crowd: "for every set of subscriptions" also means large ones. n subscribers (no filter / one emitter / two
+// emitters, in turn) connect one after the other, three VAAs are published, then every subscriber disconnects.
+// A subscription the server refuses with an error is simply not connected (not judged); everything else is:
+// Publish returns, every connected subscriber has exactly its matching VAAs, every removal completes and the
+// table ends empty. Quiescence and blocking are decided by goroutine states, as in the search.
+func crowd() {
+	for _, n := range []int{16, 63, 64, 65, 66, 100, 128, 129, 300, 1100} {
+		srv := spy.VerifNewSpyServer()
+		type sub struct {
+			st      *stream
+			filters []int
+			done    chan error
+			refused bool
+			want    []string
+		}
+		var subs []*sub
+		wait := func() []quiesce.Goroutine {
+			gs, ok := quiesce.Wait(quiesce.Options{Ignore: ignore})
+			if !ok {
+				ev.Broken("crowd: spy server does not become quiescent")
+			}
+			return gs
+		}
+		bad := func(key, what string) {
+			r.Violation("crowd of subscribers: "+key, fmt.Sprintf("%d subscribers: %s", n, what), map[string]interface{}{"subscribers": n})
+		}
+		ok := true
+		for i := 0; i < n && ok; i++ {
+			sb := &sub{st: newStreamFor(2 + i), filters: filterSets[[]int{0, 1, 3, 6}[i%4]], done: make(chan error, 1)}
+			req := &spyv1.SubscribeSignedVAARequest{}
+			for _, f := range sb.filters {
+				req.Filters = append(req.Filters, &spyv1.FilterEntry{Filter: &spyv1.FilterEntry_EmitterFilter{EmitterFilter: &spyv1.EmitterFilter{
+					ChainId: publicrpcv1.ChainID(emitters[f].chain), EmitterAddress: hex.EncodeToString(emitters[f].addr[:])}}})
+			}
+			go func() { sb.done <- srv.SubscribeSignedVAA(req, sb.st) }()
+			wait()
+			select {
+			case err := <-sb.done:
+				if err == nil {
+					bad("a subscription ended without an error while its client is connected", fmt.Sprintf("subscriber %d", i))
+					ok = false
+				}
+				sb.refused = true
+			default:
+				if sb.st.polled == 0 {
+					bad("registration of a subscription does not complete", fmt.Sprintf("subscriber %d never reached its receive loop", i))
+					ok = false
+				}
+			}
+			subs = append(subs, sb)
+		}
+		r.Add("crowd_subscriptions", len(subs))
+		for e := 0; e < 3 && ok; e++ {
+			b := vaaBytes(emitters[e], uint64(100+e))
+			for _, sb := range subs {
+				if !sb.refused && matches(sb.filters, e) {
+					sb.want = append(sb.want, hex.EncodeToString(b))
+				}
+			}
+			done := make(chan error, 1)
+			go func() { done <- srv.Publish(b) }()
+			gs := wait()
+			select {
+			case err := <-done:
+				if err != nil {
+					bad("Publish of a valid VAA returns an error", err.Error())
+					ok = false
+				}
+			default:
+				bad("Publish does not return although every subscriber is reading", "parked: "+strings.Join(append(parked(gs, "Publish"), parked(gs, "SubscribeSignedVAA")...), ","))
+				ok = false
+			}
+		}
+		for i, sb := range subs {
+			if !ok {
+				break
+			}
+			sb.st.mu.Lock()
+			got := append([]string{}, sb.st.got...)
+			sb.st.mu.Unlock()
+			if sb.refused {
+				continue
+			}
+			if strings.Join(got, ",") != strings.Join(sb.want, ",") {
+				bad("a subscriber did not receive exactly the VAAs matching its filters", fmt.Sprintf("subscriber %d (filters %s): got %d VAAs, want %d", i, describe(sb.filters), len(got), len(sb.want)))
+				ok = false
+			}
+		}
+		for _, sb := range subs {
+			sb.st.cancel()
+		}
+		if ok {
+			wait()
+			for i, sb := range subs {
+				if sb.refused {
+					continue
+				}
+				select {
+				case <-sb.done:
+				default:
+					bad("removal of a disconnected subscription does not complete", fmt.Sprintf("subscriber %d", i))
+					ok = false
+				}
+				if !ok {
+					break
+				}
+			}
+			if ok && srv.VerifSubs() != 0 {
+				bad("subscription table not empty after every subscriber disconnected", fmt.Sprintf("%d entries", srv.VerifSubs()))
+			}
+		}
+		for k := 0; k < 50; k++ {
+			srv.VerifUnblock()
+			gs, _ := quiesce.Wait(quiesce.Options{Ignore: ignore, MaxSpins: 2000})
+			if len(quiesce.Find(gs, "cmd/spy.(*spyServer).")) == 0 {
+				break
+			}
 		}
 	}
 }
